@@ -171,9 +171,16 @@ func buildDeep(c c15Case) ([]byte, int) {
 		sd := shapes[c.Shapes[i%len(c.Shapes)]]
 		if levels+sd.levels > knownLimit {
 			// fall back to the type's smallest step, or stop
+			// (in name order: the message must be a function of the case alone, whatever order the
+			// runtime iterates a map in - C07 rebuilds it in another process)
 			smallest := sd
-			for _, o := range shapes {
-				if o.levels < smallest.levels {
+			var snames []string
+			for n := range shapes {
+				snames = append(snames, n)
+			}
+			sortStrings(snames)
+			for _, n := range snames {
+				if o := shapes[n]; o.levels < smallest.levels {
 					smallest = o
 				}
 			}
